@@ -31,7 +31,9 @@ def text_atom(rng):
 
 VAR_OPTS = [('lower', None), ('upper', None), ('html_quote', None), ('capitalize', None), ('size', '3'), ('etc', '..'),
             ('fmt', 'upper'), ('null', 'nil'), ('missing', 'gone'), ('url_quote', None), ('newline_to_br', None),
-            ('thousands_commas', None), ('spacify', None), ('sql_quote', None)]
+            ('thousands_commas', None), ('spacify', None), ('sql_quote', None),
+            # values that end in the character which closes or self-closes a tag in some syntax
+            ('null', '/'), ('missing', 'n/a/'), ('etc', '../'), ('fmt', '%s/'), ('null', 'a-'), ('missing', 'x!')]
 IN_OPTS = [('mapping', None), ('size', '2'), ('start', '1'), ('orphan', '0'), ('overlap', '0'), ('sort', 'k'), ('reverse', None),
            ('prefix', 'it'), ('no_push_item', None), ('sort_expr', 'q'), ('skip_unauthorized', None), ('end', '2')]
 ENT_MODS = ['lower', 'upper', 'html_quote', 'url_quote', 'capitalize', 'sql_quote']
